@@ -101,7 +101,8 @@ def cases_(draw):
             # checkpoint names: plain, or paths that share their last component (daily/load, weekly/load, ...)
             'names': draw(st.sampled_from(['plain', 'plain', 'shared-last-component'])),
             # a structural step behind the last checkpoint: it drops / merges resources of the checkpointed stream
-            'tail': draw(st.sampled_from([None, None, 'delete_first', 'delete_last', 'concatenate_all'])) if n_res >= 2 else None}
+            'tail': draw(st.sampled_from([None, None, 'delete_first', 'delete_last', 'concatenate_all', 'head', 'head'])) if n_res >= 2
+            else draw(st.sampled_from([None, None, 'head']))}
 
 
 def cases(tier):
@@ -214,6 +215,13 @@ def check(case, ctx):
                     if f_['name'] not in names_:
                         names_.append(f_['name'])
             steps.append(dataflows.concatenate({n_: [] for n_ in names_}, {'name': 'merged', 'path': 'merged.csv'}))
+        elif tail == 'head':
+            def first_row_only(rows):
+                # stops reading every resource after its first row (it simply returns)
+                for r in rows:
+                    yield r
+                    return
+            steps.append(first_row_only)
         return steps
 
     prebuilt = []
@@ -251,7 +259,7 @@ def check(case, ctx):
             if op[0] == 'fail-run':
                 # a run whose last step fails at its k-th row: no checkpoint is committed by it, not even later when the
                 # abandoned generators are collected; what existed before still exists
-                if op[1] >= total:
+                if op[1] >= total or case.get('tail') == 'head':     # (behind an early-stopping step the k-th row may never be asked for)
                     continue
                 import gc
                 fc = [0] * (n_cp + 3)
@@ -307,6 +315,10 @@ def check(case, ctx):
         resume = max(existing) if existing else 0
         exp_counts = [total if resume == 0 else 0] + [total if j > resume else 0 for j in range(1, n_cp + 2)] + \
             [1 if resume == 0 else 0]
+        if case.get('tail') == 'head':
+            # the step right in front of the early-stopping one only sees the rows that one asked for
+            counts = list(counts)
+            counts[n_cp + 1] = exp_counts[n_cp + 1]
         if counts != exp_counts:
             raise Violation('steps-executed', {'got': counts, 'expected': exp_counts, 'existing': sorted(existing)})
         for j in range(1, n_cp + 1):
@@ -341,6 +353,8 @@ def check(case, ctx):
                         if f_['name'] not in names_:
                             names_.append(f_['name'])
                 exp_tables = [[dict({n_: None for n_ in names_}, **r) for t in exp_tables for r in t]]
+            elif tail == 'head':
+                exp_tables = [t[:1] for t in exp_tables]
             if len(rows) != len(exp_tables):
                 raise Violation('first-run-resources', {'got': len(rows), 'expected': len(exp_tables)})
             for got, exp in zip(rows, exp_tables):
